@@ -638,6 +638,11 @@ struct IoState {
     /// codecs in place since the last byte was delivered (the last one is the current codec)
     sels_since_arrival: Vec<Sel>,
     read_snaps: Vec<ReadSnap>,
+    /// how `poll_read` hands the bytes to the `ReadBuf`: 0 `put_slice`; 1 `initialize_unfilled()` (the
+    /// whole spare room is zeroed first, as TLS streams and `std::io::Read` bridges do), copy,
+    /// `advance(n)`; 2 `initialize_unfilled_to(n + 37)`, copy, `advance(n)`; 3 a different style at
+    /// every read.  Only the FILLED bytes are data — whatever else got initialised is not.
+    rd_style: u8,
     /// bytes handed over in `read_buf` at construction (they count as delivered)
     handed_over: usize,
     /// a read has delivered at least one byte
@@ -699,6 +704,11 @@ impl AsyncRead for ScriptedIo {
         if room == 0 {
             st.zero_room_reads += 1;
         }
+        if room > (1 << 20) {
+            // the read buffer of a healthy `Framed` holds one frame and a read chunk; a buffer that keeps
+            // doubling means bytes that were never delivered are being counted as data
+            panic!("watchdog: poll_read was offered {room} bytes of room after {} bytes of data", st.delivered.len());
+        }
         let snap = ReadSnap {
             delivered: st.delivered.len(),
             frames: st.frames_so_far,
@@ -706,6 +716,18 @@ impl AsyncRead for ScriptedIo {
             handed_over_only: st.handed_over > 0 && !st.arrived,
         };
         st.read_snaps.push(snap);
+        let style = if st.rd_style == 3 { (st.n_read % 3) as u8 } else { st.rd_style };
+        // styles 1 and 2 touch the spare room before anything else, whatever the answer will be
+        match style {
+            1 => {
+                buf.initialize_unfilled();
+            }
+            2 => {
+                let k = room.min(37 + st.n_read % 5);
+                buf.initialize_unfilled_to(k);
+            }
+            _ => {}
+        }
         match st.rscript.pop_front() {
             None => {
                 st.eof_answered = true;
@@ -721,7 +743,17 @@ impl AsyncRead for ScriptedIo {
             }
             Some(Rd::Data(bs)) => {
                 let k = bs.len().min(room);
-                buf.put_slice(&bs[..k]);
+                match style {
+                    0 => buf.put_slice(&bs[..k]),
+                    1 => {
+                        buf.initialize_unfilled()[..k].copy_from_slice(&bs[..k]);
+                        buf.advance(k);
+                    }
+                    _ => {
+                        buf.initialize_unfilled_to(room.min(k + 37))[..k].copy_from_slice(&bs[..k]);
+                        buf.advance(k);
+                    }
+                }
                 st.delivered.extend_from_slice(&bs[..k]);
                 if k < bs.len() {
                     st.rscript.push_front(Rd::Data(bs[k..].to_vec()));
@@ -1104,9 +1136,10 @@ enum Init {
 }
 
 impl Session {
-    fn new(sel: Sel, init: Init) -> Self {
+    fn new(sel: Sel, init: Init, rd_style: u8) -> Self {
         let io = ScriptedIo(Default::default());
         io.0.borrow_mut().sels_since_arrival = vec![sel];
+        io.0.borrow_mut().rd_style = rd_style;
         let codec = AnyCodec::new(sel);
         let cnt = codec.cnt.clone();
         let framed = match &init {
@@ -1645,7 +1678,8 @@ fn emit_c13(w: &mut dyn Write, id: &mut usize, sel: Sel, tag: &str, script: &[Rd
 
 fn emit_c13x(w: &mut dyn Write, id: &mut usize, sel: Sel, tag: &str, script: &[Rd], polls: usize, extra: &str) {
     *id += 1;
-    writeln!(w, "case c13-{}-{tag}-{} codec={}{extra}", sel.name(), *id, sel.name()).unwrap();
+    let rd = if extra.contains(" rd=") { "" } else { rd_style(*id / 5 + *id) };
+    writeln!(w, "case c13-{}-{tag}-{} codec={}{extra}{rd}", sel.name(), *id, sel.name()).unwrap();
     let evs: Vec<String> = script.iter().map(show_rd).collect();
     writeln!(w, "script {}", evs.join(" ")).unwrap();
     writeln!(w, "drain {polls}").unwrap();
@@ -1653,11 +1687,16 @@ fn emit_c13x(w: &mut dyn Write, id: &mut usize, sel: Sel, tag: &str, script: &[R
 
 const VIAS: [&str; 3] = ["map", "replace", "parts"];
 
+/// the `ReadBuf` filling style of a case, in rotation (the expected frames are the same under each)
+fn rd_style(id: usize) -> &'static str {
+    ["", " rd=init", " rd=initk", " rd=mix", " rd=init"][id % 5]
+}
+
 /// a codec-swap case: `before` polls with codec `a`, swap to `b`, `after` polls
 #[allow(clippy::too_many_arguments)]
 fn emit_swap(w: &mut dyn Write, id: &mut usize, a: Sel, b: Sel, tag: &str, script: &[Rd], before: usize, after: usize) {
     *id += 1;
-    writeln!(w, "case c13-swap-{}-{}-{tag}-{} codec={}", a.name(), b.name(), *id, a.name()).unwrap();
+    writeln!(w, "case c13-swap-{}-{}-{tag}-{} codec={}{}", a.name(), b.name(), *id, a.name(), rd_style(*id)).unwrap();
     let evs: Vec<String> = script.iter().map(show_rd).collect();
     writeln!(w, "script {}", evs.join(" ")).unwrap();
     if before > 0 {
@@ -1786,6 +1825,12 @@ fn gen_c13(a: &Args, w: &mut dyn Write) {
                 if s.len() > lb {
                     continue;
                 }
+                // … and the same script under every other way of filling the `ReadBuf`
+                if !s.is_empty() {
+                    for rd in [" rd=init", " rd=initk", " rd=mix"] {
+                        emit_c13x(w, &mut id, sel, "chunks", &script_with(&chunks, &[]), polls, rd);
+                    }
+                }
                 let p = chunks.len() + 1;
                 // (B) Pending at one or two places
                 for i in 0..p {
@@ -1851,7 +1896,7 @@ fn gen_c13(a: &Args, w: &mut dyn Write) {
                             };
                             let prog = PROGRAMS[k % PROGRAMS.len()];
                             id += 1;
-                            writeln!(w, "case c13-{}-halves-{id} codec={}", sel.name(), sel.name()).unwrap();
+                            writeln!(w, "case c13-{}-halves-{id} codec={}{}", sel.name(), sel.name(), rd_style(id)).unwrap();
                             writeln!(w, "script {}", script.iter().map(show_rd).collect::<Vec<_>>().join(" ")).unwrap();
                             if before > 0 {
                                 writeln!(w, "drain {before}").unwrap();
@@ -1990,7 +2035,7 @@ fn gen_c13(a: &Args, w: &mut dyn Write) {
             _ => {}
         }
         id += 1;
-        writeln!(w, "case c13-{}-long-{id} codec={}{}", sel.name(), sel.name(), if rng.chance(1, 4) { " init=parts" } else { "" }).unwrap();
+        writeln!(w, "case c13-{}-long-{id} codec={}{}{}", sel.name(), sel.name(), if rng.chance(1, 4) { " init=parts" } else { "" }, rd_style(rng.below(5))).unwrap();
         // the script in several `script` lines, polls in between (the script may run dry = EOF only at the end)
         let evs: Vec<String> = script.iter().map(show_rd).collect();
         for part in evs.chunks(12) {
@@ -2439,7 +2484,7 @@ fn random_wconfig(rng: &mut Rng) -> WConfig {
 /// ops: 0 send, 1 ready, 2 flush, 3 close, 4 codec swap, 5 into_map_io, 6 poll the stream half
 fn emit_c14(w: &mut dyn Write, id: &mut usize, tag: &str, cfg: &WConfig, ops: &[u8]) {
     *id += 1;
-    writeln!(w, "case c14-{tag}-{} codec={}{}", *id, cfg.sel.name(), if cfg.parts { " init=parts" } else { "" }).unwrap();
+    writeln!(w, "case c14-{tag}-{} codec={}{}{}", *id, cfg.sel.name(), if cfg.parts { " init=parts" } else { "" }, if cfg.rscript.is_empty() { "" } else { rd_style(*id) }).unwrap();
     if !cfg.wscript.is_empty() {
         writeln!(w, "wscript {}", cfg.wscript.iter().map(show_wr).collect::<Vec<_>>().join(" ")).unwrap();
     }
@@ -2625,9 +2670,10 @@ fn gen(a: &Args) {
     w.flush().unwrap();
 }
 
-fn parse_case(ws: &[&str]) -> Option<(Sel, Init)> {
+fn parse_case(ws: &[&str]) -> Option<(Sel, Init, u8)> {
     let mut sel = Sel::Lines;
     let mut init = Init::New;
+    let mut rd = 0u8;
     for w in ws.iter().skip(2) {
         match *w {
             "codec=lines" => sel = Sel::Lines,
@@ -2635,6 +2681,11 @@ fn parse_case(ws: &[&str]) -> Option<(Sel, Init)> {
             "codec=len" => sel = Sel::Len,
             "codec=lenx" => sel = Sel::LenX,
             x if x.starts_with("codec=") => return None,
+            // how the transport fills the `ReadBuf` (no effect on what is delivered: the model ignores it)
+            "rd=put" => rd = 0,
+            "rd=init" => rd = 1,
+            "rd=initk" => rd = 2,
+            "rd=mix" => rd = 3,
             "init=new" => init = Init::New,
             "init=parts" => init = Init::Parts,
             x if x.starts_with("init=rbuf:") => init = Init::Rbuf(unhex(&x[10..]).filter(|b| b.len() <= MAX_CHUNK)?),
@@ -2642,23 +2693,23 @@ fn parse_case(ws: &[&str]) -> Option<(Sel, Init)> {
             _ => {}
         }
     }
-    Some((sel, init))
+    Some((sel, init, rd))
 }
 
 fn run(a: &Args) {
     silence_panics();
     let mut rep = Report::new(&a.output);
-    let mut sess = Session::new(Sel::Lines, Init::New);
+    let mut sess = Session::new(Sel::Lines, Init::New, 0);
     for line in in_lines(&a.input) {
         let ws: Vec<&str> = line.split_whitespace().collect();
         let real: String = match ws.as_slice() {
             ["case", ..] => match parse_case(&ws) {
-                Some((sel, init)) => {
-                    sess = Session::new(sel, init);
+                Some((sel, init, rd)) => {
+                    sess = Session::new(sel, init, rd);
                     "ok".into()
                 }
                 None => {
-                    sess = Session::new(Sel::Lines, Init::New);
+                    sess = Session::new(Sel::Lines, Init::New, 0);
                     "bad-op".into()
                 }
             },
